@@ -4,6 +4,8 @@ package tk
 
 import (
 	"fmt"
+	"strings"
+	"sync"
 	"time"
 
 	"gitee.com/Trisia/gotlcp/tlcp"
@@ -79,7 +81,12 @@ func BuildTLCP(e EPConfig, reg *Registry) *tlcp.Config {
 		m := reg.mapTLCP()
 		sc, ok := m[e.Cache]
 		if !ok {
-			sc = tlcp.NewLRUSessionCache(e.CacheCap)
+			if strings.HasPrefix(e.Cache, "ptr:") {
+				// a user-supplied cache that keeps the very object it is handed (the interface allows it)
+				sc = &ptrCacheTLCP{m: map[string]*tlcp.SessionState{}}
+			} else {
+				sc = tlcp.NewLRUSessionCache(e.CacheCap)
+			}
 			m[e.Cache] = sc
 		}
 		c.SessionCache = sc.(tlcp.SessionCache)
@@ -179,3 +186,26 @@ func guardTLCP(f func() error) (err error, pan string) {
 }
 
 var _ = time.Second
+
+// ptrCacheTLCP is a SessionCache written by a user of the library: it stores the pointer it is given.
+type ptrCacheTLCP struct {
+	mu sync.Mutex
+	m  map[string]*tlcp.SessionState
+}
+
+func (c *ptrCacheTLCP) Get(k string) (*tlcp.SessionState, bool) {
+	c.mu.Lock()
+	defer c.mu.Unlock()
+	s, ok := c.m[k]
+	return s, ok && s != nil
+}
+
+func (c *ptrCacheTLCP) Put(k string, s *tlcp.SessionState) {
+	c.mu.Lock()
+	defer c.mu.Unlock()
+	if s == nil {
+		delete(c.m, k)
+		return
+	}
+	c.m[k] = s
+}
